@@ -71,10 +71,10 @@ fn choose(st: &mut RunState, cands: &[u32], current: Option<u32>, is_yielding: b
             for &c in cands {
                 let i = c as usize;
                 if st.prio.len() <= i {
-                    st.prio.resize(i + 1, 0);
+                    st.prio.resize(i + 1, i64::MIN);
                 }
-                if st.prio[i] == 0 {
-                    st.prio[i] = 1_000 + st.rng.below(1_000_000) as u32;
+                if st.prio[i] == i64::MIN {
+                    st.prio[i] = 1_000 + st.rng.below(1_000_000) as i64;
                 }
             }
             // priority change point: demote the task that would run now
@@ -93,8 +93,10 @@ fn choose(st: &mut RunState, cands: &[u32], current: Option<u32>, is_yielding: b
             let yielding = is_yielding && current == Some(b) && cands.len() > 1;
             if at_change || unfair || yielding {
                 // new lowest priority: below everything handed out so far
-                let low = st.prio.iter().copied().filter(|p| *p > 0).min().unwrap_or(1_000);
-                st.prio[b as usize] = low.saturating_sub(1).max(1);
+                // (unbounded below: a long run demotes many thousand times, and priorities that
+                // saturate would freeze the order and starve everybody but one task)
+                let low = st.prio.iter().copied().filter(|p| *p != i64::MIN).min().unwrap_or(1_000);
+                st.prio[b as usize] = low - 1;
                 b = best(st);
             }
             Some(b)
